@@ -360,6 +360,9 @@ func (fg *FnGen) evalIdent(name string, env *CEnv) *Val {
 			if fg.compSorts[comp] == SBool {
 				gt = tBool
 			}
+			if T, ok := fg.ghostTypes[name]; ok {
+				gt = T
+			}
 			return &Val{T: gt, L: []Term{fg.get(env.st, comp, fg.compSorts[comp])}}
 		}
 	}
